@@ -158,11 +158,32 @@ def excluded_combos(desc, design, crossing, constraints):
                 choices = [[asg[g]] if g in asg else level_names(fm[g]) for g in deps]
                 if not any(asg[f] in accepted_levels(F, [(v,) for v in vals]) for vals in itertools.product(*choices)):
                     out.add(combo)
+    # Exclude of a within-trial derived level whose factor is not in this crossing: a combination is impossible when EVERY completion by the design's
+    # other basic factors gives some excluded level (the excludes act together: no trial can hold any of them).  Windows, derived sources: outside.
+    outside = []
     for f, l in excl:
         if f not in crossing and is_derived(fm[f]):
             d = fm[f]["derive"]
-            if any(g in crossing or is_derived(fm[g]) for g in d["deps"]) or d["width"] > 1:
-                raise Unsupported("Exclude of an uncrossed derived level that interacts with the crossing")
+            if any(is_derived(fm[g]) for g in d["deps"]) or d["width"] > 1 or d["stride"] > 1 or f_start(fm, fm[f]) != 0:
+                if any(g in crossing or is_derived(fm[g]) for g in d["deps"]) or d["width"] > 1:
+                    raise Unsupported("Exclude of an uncrossed derived level that interacts with the crossing")
+                continue
+            if any(g in crossing for g in d["deps"]):
+                outside.append((f, l))
+    if outside:
+        free = sorted({g for f, _ in outside for g in fm[f]["derive"]["deps"] if g not in crossing})
+        for combo in combos:
+            if combo in out:
+                continue
+            asg = dict(zip(crossing, combo))
+            possible = False
+            for vals in itertools.product(*[level_names(fm[g]) for g in free]):
+                full = dict(asg, **dict(zip(free, vals)))
+                if not any(l in accepted_levels(fm[f], [(full[g],) for g in fm[f]["derive"]["deps"]]) for f, l in outside):
+                    possible = True
+                    break
+            if not possible:
+                out.add(combo)
     return out
 
 
@@ -243,8 +264,9 @@ def geometry(desc, node=None):
                 raise Unsupported("Merge of a block that has its own MinimumTrials (docs silent on window vs chunk length)")
         mode = node.get("mode", "repeat")
         alignment = node.get("alignment") or subs[0]["alignment"]
-        if any(g["alignment"] != alignment for g in subs):
-            raise Unsupported("blocks with different alignments are rejected by the constructor")
+        # main.rst: "The default alignment uses the alignment of the first block"; an explicit alignment governs the merged crossings whatever the blocks had
+        if not node.get("alignment") and any(g["alignment"] != alignment for g in subs):
+            raise Unsupported("blocks with different alignments and no explicit alignment (docs name only the first block's)")
         design = []
         for g in subs:
             design += [f for f in g["design"] if f not in design]
